@@ -371,6 +371,78 @@ theorem iteCap_result_dyn (cap : Nat) (ext : Nat → Nat) (m : Mgr) (hD : DynInv
     · exact hu
     · exact hv
 
+/-- GENERIC: WHICH exception a decorated call can raise.  If the body, inside a context, on
+operands in the manager, raises only the reordering signal or exceptions of `E` (and otherwise
+only adds nodes), then the decorated call from `DynInv ext m` with held operands raises only
+exceptions of `E` — whether the failure happens in the first attempt or in the retry after
+sifting (the signal itself never escapes: `tryToReorder_rejected`). -/
+theorem tryToReorder_raises {α} (ext : Nat → Nat) (hS : SiftContract ext) (E : Err → Prop) (f : M α)
+    (ops : List Int)
+    (hbody : ∀ m0 : Mgr, Inv m0 → m0.ctx = true → OrderOK m0.tbl → (∀ u ∈ ops, m0.tbl.Mem u) →
+      OutcomeX E m0 (fun _ _ => True) (f m0))
+    (m : Mgr) (hD : DynInv ext m) (hops : ∀ u ∈ ops, HeldX ext u) (e : Err) (m' : Mgr)
+    (h : tryToReorder f m = (.error e, m')) : E e := by
+  have hI := hD.inv
+  have hmem0 : ∀ u ∈ ops, m.tbl.Mem u := fun u hu => (hops u hu).mem hD.refs
+  have h1 := hbody { m with ctx := true } (hI.setCtx true) rfl hD.order hmem0
+  generalize hres : f { m with ctx := true } = res at h1
+  obtain ⟨r, m1⟩ := res
+  cases r with
+  | ok a =>
+    rw [tryToReorder_ok f m a m1 hres] at h
+    cases h
+  | error e1 =>
+    rcases OutcomeX.err h1 with ⟨he1, ha⟩ | ⟨hne, hE⟩
+    · -- aborted by a request: sifting, then the retry
+      subst he1
+      have hs : StepK { m with ctx := true } m1 := h1.1
+      let m2 : Mgr := { m1 with ctx := m.ctx, lastLen := none }
+      have hs2 : StepK m { m1 with ctx := m.ctx } := hs.ofCtx true
+      have hD2 : DynInv ext m2 := by
+        have h := hD.step hs2
+        exact ⟨⟨h.inv.wf, h.inv.pred, h.inv.freeGe, h.inv.free, h.inv.refOne, h.inv.refDom, h.inv.cache⟩,
+          h.order, h.refs.congr rfl rfl, h.ctx, h.sched, h.roots, h.nvars⟩
+      obtain ⟨m3, hre, hD3, hl3, _, _, _⟩ := hS.run m2 hD2 rfl
+      have h2 := hbody { m3 with ctx := true } (hD3.inv.setCtx true) rfl hD3.order
+        (fun u hu => (hops u hu).mem hD3.refs)
+      have hoff3 : ¬ Armed { m3 with ctx := true } := by
+        intro ha4
+        have := ha4.2
+        rw [show ({ m3 with ctx := true } : Mgr).lastLen = m3.lastLen from rfl, hl3] at this
+        exact Bool.noConfusion this
+      generalize hres2 : f { m3 with ctx := true } = res2 at h2
+      obtain ⟨r2, m4⟩ := res2
+      cases r2 with
+      | ok a =>
+        rw [tryToReorder_retry f m m1 m3 m4 a hD.ctx hres hre hres2] at h
+        cases h
+      | error e2 =>
+        rcases OutcomeX.err h2 with ⟨_, ha4⟩ | ⟨hne2, hE2⟩
+        · exact absurd ha4 hoff3
+        · rw [tryToReorder_retry_err f m m1 m3 m4 e2 hD.ctx hres hre hres2 hne2] at h
+          have : e2 = e := by injection h with h' _; injection h'
+          rw [← this]; exact hE2
+    · rw [tryToReorder_err f m e1 m1 hres hne] at h
+      have : e1 = e := by injection h with h' _; injection h'
+      rw [← this]; exact hE
+
+/-- (c) dynamic reordering enabled or not, held operands: the ONLY exception `BDD.ite` of a
+manager with `max_nodes = cap` raises is `RuntimeError` -/
+theorem iteCap_raises_runtime (cap : Nat) (ext : Nat → Nat) (m : Mgr) (hD : DynInv ext m)
+    (g u v : Int) (hg : HeldX ext g) (hu : HeldX ext u) (hv : HeldX ext v) (e : Err) (m' : Mgr)
+    (h : iteCap cap g u v m = (.error e, m')) : e = .runtime := by
+  refine tryToReorder_raises ext (siftContract ext) (fun e => e = .runtime) (iteCapRaw cap g u v)
+    [g, u, v] ?_ m hD ?_ e m' h
+  · intro m0 hI0 _ _ hmem
+    exact (iteCapRaw_outX cap m0 g u v hI0 (hmem g (by simp)) (hmem u (by simp))
+      (hmem v (by simp))).mono (fun _ _ _ _ => trivial)
+  · intro w hw
+    simp only [List.mem_cons, List.not_mem_nil, or_false] at hw
+    rcases hw with rfl | rfl | rfl
+    · exact hg
+    · exact hu
+    · exact hv
+
 /-- reordering not enabled, operands in the manager: the ONLY exception `BDD.ite` with capacity
 can raise is `RuntimeError`, and then the caller's `GoodState` is kept for the same ledger —
 every theorem of the development applies to the state after the refusal -/
